@@ -60,6 +60,10 @@ DESC = {
  ("wt2_A",2):("C01","fbb","SOH length byte = len(un-encoded title)","accepted message with a non-ASCII subject"),
  ("wt2_A",3):("C02","fbb","FQ written before a ProcessInbound error is returned","storage error on the receiving side"),
  ("wt2_A",4):("C02","fbb","EOF on the acknowledgement Peek treated as remote quit when remoteNoMsgs is set","peer said FF before the block; link cut after the answer line"),
+ ("wt2_C",1):("C06","lzhuf","literal/match test matchLength <= _Threshold -> < _Threshold","last encode step has exactly 2 bytes left and the stale byte after the end extends a match to >= 3 (e.g. {0,0,0})"),
+ ("wt2_C",2):("C06","lzhuf","overflow buffer []byte drained with buf = buf[:0] instead of buf[n:]","read buffer shorter than the pending tail of a match (1-byte reads)"),
+ ("wt2_C",3):("C08","lzhuf","end-of-stream tested before the bit-reader error; Close no longer looks at the bit reader","stream without CRC (or recomputed CRC) cut inside its last symbol"),
+ ("wt2_C",4):("C08","lzhuf","'unused' upper halves of the position tables removed (dCode/dLen [0xD0])","non-canonical stream: match symbol followed by 8 bits >= 0xD0"),
 }
 results = {}
 for f in ['/tmp/seedfirst.txt'] + sorted(glob.glob('/tmp/seedbatch*.txt')) + sorted(glob.glob('/tmp/seedfinal*.txt')):
